@@ -17,7 +17,7 @@ RULE = ("2-3 simulated processes (complete, symbol-renamed copies of the library
         "write, two writers race for the lock files, a re-index runs between the two unlinks of a destroy). Oracle: interval semantics against the shared-store model for every search, read and stale-handle use "
         "during the run (exact when calls do not overlap), and at quiescence the exact check - every process's view, the decoded disk and a third copy started cold agree with: created-and-acknowledged minus "
         "destroyed-and-acknowledged objects, each acknowledged attribute change present. Distinct+non-trivial: (policy, operation pair of two processes on the same object, overlap or not, outcome).")
-PROBES = ["cross_process_observation", "search_sees_foreign_create", "search_misses_foreign_destroy", "stale_handle_rejected", "foreign_value_read", "overlapping_calls", "lock_blocked", "fs_switches", "quiescence_checked", "cold_copy_checked", "disk_checked", "contended_same_object", "different_attrs_same_object"]
+PROBES = ["convergence_checked", "quiet_point_agreement_checked", "cross_process_observation", "search_sees_foreign_create", "search_misses_foreign_destroy", "stale_handle_rejected", "foreign_value_read", "overlapping_calls", "lock_blocked", "fs_switches", "quiescence_checked", "cold_copy_checked", "disk_checked", "contended_same_object", "different_attrs_same_object"]
 DEATH_IS_VIOLATION = ("died.exit", "died.sanitizer", "died.signal", "died.hang", "died.deadlock")
 
 READ_T = [K.CKA_LABEL, K.CKA_ID, K.CKA_VALUE, K.CKA_START_DATE, K.CKA_END_DATE, K.CKA_CLASS, K.CKA_PRIVATE, K.CKA_DERIVE]
@@ -67,8 +67,21 @@ def gen(seed, tier, index):
         elif attr == "date": tm = [A_bytes(K.CKA_START_DATE, ("20%02d0%d1%d" % (r.randrange(100), r.randint(1, 9), r.randint(0, 9))).encode())]
         else: tm = [A_bytes(K.CKA_END_DATE, ("21%02d0%d1%d" % (r.randrange(100), r.randint(1, 9), r.randint(0, 9))).encode())]
         g.emit({"f": "C_SetAttributeValue", "s": s, "o": ref, "tmpl": tm}, t)
+    rounds = 0
+    if stratum in (0, 3) and keys_only():
+        # rounds: all processes change (mostly different) attributes of ONE object at the same time; then, with everybody quiet, each reads it: whatever the
+        # race did to the values, all running processes must read the same thing (convergence at a quiet point)
+        ref = keys_only()[0]; rounds = r.choice([2, 3, 4, 6])
+        for rd in range(rounds):
+            for t in range(nproc): g.emit({"act": "barrier"}, t)
+            for t in range(nproc):
+                if r.random() < 0.9: op_set(t, ref, ["label", "id", "date", "end"][t % 4] if r.random() < 0.85 else r.choice(["label", "id", "date", "end"]))
+            for t in range(nproc): g.emit({"act": "barrier"}, t)
+            for t in range(nproc): g.emit({"act": "readattrs", "s": sess[t], "o": ref, "types": READ_T, "qr": rd}, t)
+        for t in range(nproc): g.emit({"act": "barrier"}, t)
     for t in range(nproc):
         n = r.choice([4, 6, 8, 12]) if tier == "quick" else r.choice([6, 10, 16])
+        if rounds: n = r.choice([0, 2, 4])
         for i in range(n):
             s = sess[t]
             x = r.random()
@@ -196,6 +209,8 @@ def check(plan, r):
             al = list(ps.values())
             if any(not (al[i] & al[j]) for i in range(len(al)) for j in range(i + 1, len(al))): st("different_attrs_same_object")
     tok = plan.get("token")
+    qviews = {}      # (object, attribute) -> {process | "cold": (value read at quiescence, op)}
+    rviews = {}      # (round, object, attribute) -> {process: (value read at the quiet point after the round, op)}
     for e in evs:
         P = w.proc(e.pid)
         s = w.sess(e.pid, e.op.get("s")) if "s" in e.op else None
@@ -243,6 +258,9 @@ def check(plan, r):
                 for ent, oj in zip(e.ret.get("ids", []), e.ret.get("objs", [])):
                     ref = ent.get("ref")
                     if ref: viols += check_values(e, ref, oj["attrs"], candidates, where, policy, st, create, copy_src)
+                    if ref and q in ("view", "cold"):
+                        for ts, a in oj["attrs"].items():
+                            if "v" in a: qviews.setdefault((ref, int(ts)), {})[("cold" if q == "cold" else e.pid)] = (a["v"], e.k)
         elif e.f == "@readattrs" and isinstance(e.op.get("o"), str) and e.op["o"] in create:
             ref = e.op["o"]; at = e.ret.get("attrs", {})
             bound = any(rr == ref for rr in P.h2obj.values())
@@ -256,6 +274,9 @@ def check(plan, r):
                             pass
                 elif not destroy_started_before(ref, e.retn) and (not priv.get(ref) or user_in):
                     viols += check_values(e, ref, at, candidates, "run", policy, st, create, copy_src)
+                    if "qr" in e.op:
+                        for ts, a in at.items():
+                            if "v" in a: rviews.setdefault((e.op["qr"], ref, int(ts)), {})[e.pid] = (a["v"], e.k)
         elif e.f in ("C_SetAttributeValue", "C_DestroyObject") and isinstance(e.op.get("o"), str) and e.op["o"] in create:
             ref = e.op["o"]
             bound = any(rr == ref for rr in P.h2obj.values())
@@ -270,6 +291,26 @@ def check(plan, r):
             st("disk_checked")
             viols += check_disk(e, plan, create, destroys, writes, priv, policy, copy_src)
         w.apply(e.pid, e.op, e.ret)
+    # ---- convergence: at quiescence every process that was running all along reads what a process started cold reads (whatever the races did to the
+    # values - that is judged above - nobody may be left serving a private, superseded copy)
+    for (ref, t_), by in sorted(qviews.items(), key=str):
+        if "cold" not in by: continue
+        cold_v = by["cold"][0]
+        for who, (v, kk) in by.items():
+            if who == "cold": continue
+            st("convergence_checked")
+            if v != cold_v:
+                viols.append(_v("C15.divergent", "at quiescence process %s reads %s = %s of object %s, a process started cold reads %s: the running process serves a superseded copy [policy %s]" % (who, K.name("CKA", t_), fmt(decode_read(t_, {"v": v})), ref, fmt(decode_read(t_, {"v": cold_v})), policy),
+                                call="C_GetAttributeValue", op=kk, where="quiescence", policy=policy, attr=K.name("CKA", t_), manifestation="views_disagree_at_quiescence"))
+                break
+    for (rd, ref, t_), by in sorted(rviews.items(), key=str):
+        if len(by) < 2: continue
+        st("quiet_point_agreement_checked")
+        vals = sorted(by.items())
+        if any(v[0] != vals[0][1][0] for _, v in vals[1:]):
+            viols.append(_v("C15.divergent", "quiet point after round %d (nobody is writing): the processes read different %s of object %s: %s [policy %s]" % (rd, K.name("CKA", t_), ref, ", ".join("process %s: %s" % (p_, fmt(decode_read(t_, {"v": v[0]}))) for p_, v in vals), policy),
+                            call="C_GetAttributeValue", op=vals[0][1][1], where="quiet_point", policy=policy, attr=K.name("CKA", t_), manifestation="views_disagree_at_quiet_point"))
+            break
     r.aux["c15"] = (cov, stats)
     seen = set(); out = []
     for v in viols:
